@@ -30,7 +30,7 @@ SCOPE = ('a GymEnvironment wrapped directly around OuterEnv(GridWorld) whose inn
          'GymStateWrapper returns the state representation, passes the observation through info, advertises env.state_space; '
          'set_state_representation / set_observation_representation advertise outer_space_to_gym_space of the new representation and switch the produced arrays')
 BOUNDS = {
-    'quick': dict(worlds='1x2 over {Floor, Wall, Exit, Key(YELLOW), Door(LOCKED,YELLOW)} and 2x2 over {Floor, Key(YELLOW), Door(LOCKED,YELLOW)}, every pose, held none/Key; every operation preceded by a symbolic choice of earlier reads (none / observation / state / both) and followed by reads of both properties', view='1x3, fully transparent',
+    'quick': dict(two_steps='two consecutive steps without reset (also after a terminal one): 1x3 over {Floor, Exit} with 8 actions; through the state wrapper 2x2 with 3 actions', worlds='1x2 over {Floor, Wall, Exit, Key(YELLOW), Door(LOCKED,YELLOW)} and 2x2 over {Floor, Key(YELLOW), Door(LOCKED,YELLOW)}, every pose, held none/Key; every operation preceded by a symbolic choice of earlier reads (none / observation / state / both) and followed by reads of both properties', view='1x3, fully transparent',
                   action_spaces='a permutation of all 8 actions and a 3-action subset; every index', representations='default, no-overlap, compact (state and observation)'),
     'thorough': dict(worlds='plus 2x3', view='1x3 and 2x3', action_spaces='same', representations='same'),
 }
